@@ -169,6 +169,144 @@ def close_notify_remembered(chk):
                 chk.ok(R, inst, P.src)
 
 
+def record_type_restored(chk):
+    """Application bytes travel in records of type 23; alerts (type 21) and handshake messages (22) are written by the handshake
+    bytecode through the same record_type_out register.  Whenever the bytecode (re-)enters the application-data state
+    (application_data := 1) and then yields to the engine, the last value it left in record_type_out must be 23 - otherwise what the
+    application writes next goes out as an alert / handshake record and the peer tears the connection down (a declined renegotiation
+    is the case in point: warning sent, state restored).  Typestate rule on the bytecode: per word, the set of values last written
+    to record_type_out on returning paths (stores of constants from the abstract interpretation; calls composed through word
+    summaries); from every application_data := 1 site forward to the next yield, that last value must be 23 or unwritten."""
+    R = 'record-type-restored-before-yield'
+    for key in ('hs_client', 'hs_server'):
+        P = t0.Program(key)
+        o_rt = P.layouts.field(P.ctxname, 'eng.record_type_out')[0]
+        o_ad = P.layouts.field(P.ctxname, 'eng.application_data')[0]
+        I = t0ai.Interp(P).run_entry()
+        rt_sites, ad_sites = {}, {}
+        for e in I.events:
+            if e.name == 'set8' and e.args[-1].isconst():
+                v = e.args[0].c if e.args[0].isconst() else 'T'
+                if e.args[-1].c == o_rt:
+                    prev = rt_sites.get((e.word, e.pc))
+                    rt_sites[(e.word, e.pc)] = v if prev in (None, v) else 'T'
+                elif e.args[-1].c == o_ad:
+                    prev = ad_sites.get((e.word, e.pc))
+                    ad_sites[(e.word, e.pc)] = v if prev in (None, v) else 'T'
+        if not rt_sites or not ad_sites:
+            raise AnalysisBroken('%s: no constant-address stores to record_type_out / application_data found' % key)
+        ret = t0rules.returning_words(P)
+        nr = t0rules.noreturn_natives(P)
+        memo = {}
+
+        def summary(w):
+            """(set of last-written values at return; None = not written), yields-before-any-write?"""
+            if w in memo:
+                return memo[w]
+            memo[w] = (set([None]), False)          # recursion guard (T0 has none)
+            W = P.words[w]
+            outs, ybw = set(), False
+            seen = set()
+            st = [(W.start, None)]
+            while st:
+                pc, last = st.pop()
+                while True:
+                    if (pc, last) in seen or pc not in W.ins:
+                        break
+                    seen.add((pc, last))
+                    i = W.ins[pc]
+                    if i.kind == 'ret':
+                        outs.add(last)
+                        break
+                    if i.kind == 'jump':
+                        pc = i.arg
+                        continue
+                    if i.kind in ('jumpif', 'jumpifnot'):
+                        st.append((i.arg, last))
+                        pc = i.next
+                        continue
+                    if i.kind == 'native':
+                        if i.name in nr:
+                            break
+                        if i.name == 'co' and last is None:
+                            ybw = True
+                        if (w, pc) in rt_sites:
+                            last = rt_sites[(w, pc)]
+                    elif i.kind == 'call':
+                        if not ret[i.arg]:
+                            so, sy = summary(i.arg)
+                            if sy and last is None:
+                                ybw = True
+                            break
+                        so, sy = summary(i.arg)
+                        if sy and last is None:
+                            ybw = True
+                        nxt = set(last if o is None else o for o in so)
+                        for o in list(nxt)[1:]:
+                            st.append((i.next, o))
+                        last = list(nxt)[0]
+                    pc = i.next
+            memo[w] = (outs or set([None]), ybw)
+            return memo[w]
+        n = 0
+        for (w, pc0), v in sorted(ad_sites.items()):
+            if v != 1:
+                continue
+            W = P.words[w]
+            n += 1
+            inst = '%s W%d@%d: after application_data := 1, the engine is yielded to with record_type_out = 23' % (key, w, pc0)
+            bad = None
+            seen = set()
+            st = [(W.ins[pc0].next, None)]
+            while st and bad is None:
+                pc, last = st.pop()
+                while bad is None:
+                    if (pc, last) in seen or pc not in W.ins:
+                        break
+                    seen.add((pc, last))
+                    i = W.ins[pc]
+                    if i.kind == 'ret':
+                        break
+                    if i.kind == 'jump':
+                        pc = i.arg
+                        continue
+                    if i.kind in ('jumpif', 'jumpifnot'):
+                        st.append((i.arg, last))
+                        pc = i.next
+                        continue
+                    if i.kind == 'native':
+                        if i.name in nr:
+                            break
+                        if i.name == 'co':
+                            if last not in (None, 23, 'T'):
+                                bad = (pc, last)
+                            break
+                        if (w, pc) in rt_sites:
+                            last = rt_sites[(w, pc)]
+                        if (w, pc) in ad_sites and ad_sites[(w, pc)] != 1:
+                            break                   # left the application-data state again
+                    elif i.kind == 'call':
+                        so, sy = summary(i.arg)
+                        if sy:
+                            if last not in (None, 23, 'T'):
+                                bad = (pc, last)
+                            break
+                        if not ret[i.arg]:
+                            break
+                        nxt = set(last if o is None else o for o in so)
+                        for o in list(nxt)[1:]:
+                            st.append((i.next, o))
+                        last = list(nxt)[0]
+                    pc = i.next
+            if bad is None:
+                chk.ok(R, inst, P.src)
+            else:
+                chk.violation(R, inst, P.src, 'a yield at W%d@%d is reached with record_type_out last set to %s: application data written next is sent in a record of that type'
+                              % (w, bad[0], bad[1]), key='%s %s W%d' % (R, key, w))
+        if n < 2:
+            raise AnalysisBroken('%s: only %d application_data := 1 sites' % (key, n))
+
+
 def reneg_binding(chk):
     """RFC 5746 3.4-3.7: a renegotiation is bound to the previous handshake by comparing the renegotiation_info extension with the
     saved verify_data: the client compares client_verify_data || server_verify_data (2 x 12 bytes), the server client_verify_data
@@ -436,6 +574,7 @@ def run(tier):
     reneg_extension_required(chk)
     alert_levels(chk)
     close_notify_remembered(chk)
+    record_type_restored(chk)
     fail_call_sites(chk)
     io_rules(chk)
     chk.floor('rule instances', len(chk.obls), 100)
